@@ -337,7 +337,47 @@ func ubuntuOp(r *hx.Run, lsb, osr []byte, hasLsb, hasOsr bool, nontrivial bool) 
 	return ds, ok
 }
 
+// distEdges: fixed files at the edges of the debian/ubuntu/alpine readers (correspondence only).
+func distEdges(r *hx.Run) {
+	for _, s := range []string{
+		"ID=debian\nVERSION_ID=11\nVERSION_CODENAME=\nVERSION=\"11 (bullseye)\"\n", "ID=debian\nVERSION_ID=11\nVERSION=\"11 (bullseye)\"\n", "ID=debian\nVERSION_ID=11\nVERSION=\"11 (bullseye) \"\n",
+		"ID=debian\nVERSION_ID=11\nVERSION=\"11 (v2_beta3)\"\n", "ID=debian\nVERSION_ID=11\nVERSION=\"11 (123)\"\n", "ID=debian\nVERSION_ID=+11\nVERSION_CODENAME=x\n", "ID=debian\nVERSION_ID=-0\nVERSION_CODENAME=x\n",
+		"ID=debian\nVERSION_ID=2147483648\nVERSION_CODENAME=x\n", "ID=debian\nVERSION_ID=2147483647\nVERSION_CODENAME=x\n", "ID=debian\nVERSION_ID=11.2\nVERSION_CODENAME=x\n", "ID=debian\nVERSION_ID=1_1\nVERSION_CODENAME=x\n",
+		"ID=debian\nVERSION_CODENAME=trixie\nVERSION=\"13 (trixie)\"\n", "ID=Debian\nVERSION_ID=11\nVERSION_CODENAME=x\n", "ID=debian\nVERSION_ID=11\nVERSION=\"(x)(y)\"\n", "ID=debian\nVERSION_ID=11\nVERSION=()\n", "ID=debian\nVERSION_ID='11\n",
+	} {
+		debianOp(r, []byte(s), true, true)
+		r.Count("dist:debian:edge")
+	}
+	for _, s := range []string{
+		"DISTRIB_ID=Ubuntu\r\nDISTRIB_RELEASE=22.04\r\nDISTRIB_CODENAME=jammy\r\n", "DISTRIB_ID=ubuntu\nDISTRIB_RELEASE=22.04\nDISTRIB_CODENAME=jammy", "DISTRIB_ID=UBUNTU\nDISTRIB_RELEASE=\"22.04\"\nDISTRIB_CODENAME=\"\"jammy\"\"\n",
+		"DISTRIB_RELEASE=22.04\nDISTRIB_CODENAME=jammy\nDISTRIB_ID=Ubuntu\n", "DISTRIB_RELEASE=22.04\nDISTRIB_CODENAME=jammy\nDISTRIB_ID=LinuxMint\n", "DISTRIB_ID=Ubuntu\nDISTRIB_RELEASE=22.04\nDISTRIB_RELEASE=24.04\nDISTRIB_CODENAME=noble\n",
+		" DISTRIB_ID=Ubuntu\nDISTRIB_RELEASE=22.04\nDISTRIB_CODENAME=jammy\n", "DISTRIB_ID=Ubuntu\nDISTRIB_RELEASE=\nDISTRIB_CODENAME=jammy\n", "DISTRIB_ID='Ubuntu'\nDISTRIB_RELEASE=22.04\nDISTRIB_CODENAME=jammy\n",
+		"DISTRIB_ID=Ubuntu\nDISTRIB_RELEASE=22.04\nDISTRIB_CODENAME=jammy jellyfish\n", "DISTRIB_ID=Ubuntu\nDISTRIB_RELEASE=22.04\nDISTRIB_CODENAME=jammy-x_y1z\n", "", "\n\n", "DISTRIB_ID=Ubuntu=x\nDISTRIB_RELEASE==22.04\nDISTRIB_CODENAME=j\n",
+	} {
+		ubuntuOp(r, []byte(s), nil, true, false, true)
+		ubuntuOp(r, nil, []byte(strings.NewReplacer("DISTRIB_ID", "ID", "DISTRIB_RELEASE", "VERSION_ID", "DISTRIB_CODENAME", "VERSION_CODENAME").Replace(s)), false, true, true)
+		ubuntuOp(r, []byte("DISTRIB_ID=Debian\n"), []byte(s), true, true, true)
+		r.Count("dist:ubuntu:edge")
+	}
+	for _, s := range []string{
+		"ID=alpine\nVERSION_ID=3.18.4\n", "ID=alpine\nVERSION_ID=3.18\n", "ID=alpine\nVERSION_ID=3\n", "ID=alpine\nVERSION_ID=.\n", "ID=alpine\nVERSION_ID=3.18.4.\n", "ID=alpine\nVERSION_ID=3.20.0_alpha20240329\nPRETTY_NAME=\"Alpine Linux edge\"\n",
+		"ID=alpine\nVERSION_ID=3.20_alpha20240329\nPRETTY_NAME=\"Alpine Linux edge\"\n", "ID=alpine\nVERSION_ID=3.20_alpha20240329\nPRETTY_NAME=\"Alpine Linux Edge\"\n", "ID=\"alpine\"\nVERSION_ID='3.18.4'\n", "ID=alpine\nVERSION_ID=\"3.18.4\n",
+	} {
+		alpineOp(r, []byte(s), nil, true, false, true)
+		r.Count("dist:alpine:edge")
+	}
+	for _, s := range []string{
+		"Welcome to Alpine Linux 3.18\n", "Alpine Linux 3.18", "Alpine Linux 3.", "Alpine Linux .18", "Alpine Linux 3.19_alpha20230901 (edge)\n", "Alpine Linux 3.19.0_alpha20230901 (edge)\n", "Alpine Linux 3.x (edge)", "Alpine Linux 3.19 (edge", "Alpine  Linux 3.18",
+		"alpine linux 3.18", "Alpine Linux x Alpine Linux 3.17\nAlpine Linux 3.19 (edge)\n", "Alpine Linux 3.18.4", "Alpine Linux 03.018", "",
+	} {
+		alpineOp(r, nil, []byte(s), false, true, true)
+		alpineOp(r, []byte("ID=debian\n"), []byte(s), true, true, true)
+		r.Count("dist:alpine:edge")
+	}
+}
+
 func runDebianUbuntuDist(r *hx.Run, rnd *hx.Rand, cfg hx.Config) {
+	distEdges(r)
 	debs := []struct {
 		n    int
 		name string
